@@ -70,7 +70,7 @@ def build(spec: dict):
     meta = {"size": size, "footer": {"current_size": size, "original_size": spec.get("original_size", size),
                                      "disk_type": 2 if spec["kind"] == "fixed" else 3, "cookie": b"conectix",
                                      "timestamp": spec.get("timestamp", 0x2A2A2A2A), "disk_geometry": spec.get("geometry", 0x03FF103F),
-                                     "unique_id": bytes(range(0xA0, 0xB0)), "creator_application": b"vpc "}}
+                                     "unique_id": bytes(range(0xA0, 0xB0)), "creator_application": int.from_bytes(b"vpc ", "big")}}
     if spec["kind"] == "fixed":
         # payload: one pattern stream per 1 MiB so that offsets are checked, with optional holes (zeros)
         chunk = 1 << 20
